@@ -62,7 +62,7 @@ static void crc_one(const std::string &key, const uint8_t *x, size_t n) {
     v[k++] = r; if (r != ref_cs16(x, n)) viol("checksum16-differs-from-rfc1071-reference", show_in(x, n) + " got=" + std::to_string(r) + " want=" + std::to_string(ref_cs16(x, n))); }
   // chained computation over every 2-way split (each part in its own exact block): the second call is seeded with the register the
   // REFERENCE leaves after the first part (CRC-16: the result; CRC-32: its complement) and must give the reference CRC of the whole
-  if (n <= 48) for (size_t a = 0; a <= n; a++) { C.transitions++; C.executions += 4; Ex p1(x, a), p2(x + a, n - a); Guard g("CalcCrc(chained)", x, n);
+  if (n <= 130) for (size_t a = 0; a <= n; a++) { C.transitions++; C.executions += 4; Ex p1(x, a), p2(x + a, n - a); Guard g("CalcCrc(chained)", x, n);
     const uint16_t r16a = tbox::util::CalcCrc16(p1.p, a, kSeed16[2]), r16 = tbox::util::CalcCrc16(p2.p, n - a, ref_crc16(x, a, kSeed16[2]));
     const uint32_t r32a = tbox::util::CalcCrc32(p1.p, a, kSeed32[2]), r32 = tbox::util::CalcCrc32(p2.p, n - a, ~ref_crc32(x, a, kSeed32[2]));
     if (g.hit()) viol(generic_san_sig("crc-chained"), show_in(x, n) + " split=" + std::to_string(a) + " " + Guard::desc());
@@ -131,6 +131,16 @@ static void md5_len(size_t L, size_t all3) {
       if (d != want) viol(std::string("md5-digest-differs-from-hashlib-") + kind, "pattern=" + std::to_string(p) + " L=" + std::to_string(L) + " cuts=" + cuts_str(cuts) + " got=" + d + " want=" + want); };
     check({}, "single-update");
     for (size_t a = 0; a <= L; a++) check({a}, "2-way-split");
+    // objects copied and assigned mid-stream (forking a running hash): after part 1, B is copy-constructed from A and a USED object Cc is
+    // assigned from A; all three are then fed part 2 and must give the digest of the whole message
+    for (size_t a = 0; a <= L; a++) { C.transitions++; align_case_begin(); C.executions += 8;
+      Ex p1(m.data(), a), p2(m.data() + a, L - a), junk(7, 0x33), da(16), dbb(16), dc(16);
+      Guard g("MD5(copy/assign mid-stream)", m.data(), L);
+      tbox::crypto::MD5 A; A.update(p1.p, a); tbox::crypto::MD5 B = A; tbox::crypto::MD5 Cc; Cc.update(junk.p, 7); Cc = A;
+      B.update(p2.p, L - a); B.finish(dbb.p); A.update(p2.p, L - a); Cc.update(p2.p, L - a); Cc.finish(dc.p); A.finish(da.p);
+      if (g.hit()) viol(generic_san_sig("md5-copy-assign"), "L=" + std::to_string(L) + " cut=" + std::to_string(a) + " " + Guard::desc());
+      if (hexs(da.p, 16) != want || hexs(dbb.p, 16) != want || hexs(dc.p, 16) != want)
+        viol("md5-digest-differs-from-hashlib-after-copy-or-assignment-mid-stream", "pattern=" + std::to_string(p) + " L=" + std::to_string(L) + " cut=" + std::to_string(a) + " original=" + hexs(da.p, 16) + " copy=" + hexs(dbb.p, 16) + " assigned=" + hexs(dc.p, 16) + " want=" + want); }
     if (L <= all3) { for (size_t a = 0; a <= L && !out_of_time(); a++) for (size_t b = a; b <= L; b++) check({a, b}, "3-way-split"); }
     else { std::vector<size_t> g; for (size_t v : grid) if (v <= L) g.push_back(v); if (L >= 1 && (g.empty() || g.back() < L - 1)) g.push_back(L - 1); if (g.empty() || g.back() < L) g.push_back(L);
       for (size_t i = 0; i < g.size(); i++) for (size_t j = i; j < g.size(); j++) check({g[i], g[j]}, "3-way-split"); }
@@ -232,7 +242,10 @@ static void aes_one(const uint8_t key[16], const uint8_t pt[16], const char *kat
     aes.cipher(buf.p, buf.p); const bool enc_ok = memcmp(buf.p, want, 16) == 0; const std::string got1 = hexs(buf.p, 16);
     aes.invcipher(buf.p, buf.p); const bool dec_ok = memcmp(buf.p, pt, 16) == 0;
     aes.cipher(b2.p, o3.p); const bool second_ok = memcmp(o3.p, want2, 16) == 0;
+    tbox::crypto::AES cp(aes); tbox::crypto::AES as(ko.p);                // copy taken while the original holds `key`; the original is re-keyed afterwards
     aes.setKey(ko.p); aes.cipher(buf.p, o3.p); const bool other_ok = memcmp(o3.p, wanto, 16) == 0;
+    Ex o5(16), o6(16), p5(pt, 16), c5(want, 16); cp.cipher(p5.p, o5.p); as = cp; as.invcipher(c5.p, o6.p); C.executions += 2;
+    const bool copy_ok = memcmp(o5.p, want, 16) == 0 && memcmp(o6.p, pt, 16) == 0;
     aes.setKey(k.p); aes.invcipher(b2.p, o3.p); const bool back_ok = memcmp(o3.p, pt, 16) == 0;
     Ex o4(16), p4(pt, 16); aes2.cipher(p4.p, o4.p); const bool two_ok = memcmp(o4.p, wanto, 16) == 0;
     if (g.hit()) viol(generic_san_sig("aes-rekey-inplace"), id + " " + Guard::desc());
@@ -241,6 +254,7 @@ static void aes_one(const uint8_t key[16], const uint8_t pt[16], const char *kat
     if (!dec_ok) viol("aes-rekeyed-object-in-place-invcipher-is-not-identity", id2 + " got=" + hexs(buf.p, 16));
     if (!second_ok) viol("aes-second-block-on-same-object-differs-from-fips197-reference", id2);
     if (!two_ok) viol("aes-second-live-object-disturbed-by-the-first", id2);
+    if (!copy_ok) viol("aes-copied-or-assigned-object-differs-from-fips197-reference", id2);
     if (!other_ok || !back_ok) viol("aes-setKey-on-keyed-object-differs-from-fips197-reference", id2 + (other_ok ? " (second re-key back)" : " (re-key to previous key)"));
   }
 }
@@ -280,11 +294,11 @@ void sweep_aes(const char *expect) {
 // alignment sweep: message / key / block / digest buffers at the active start offsets.  Expect files: crc, md5, aes (comma separated).
 void align_digest(const char *expect) {
   std::string list = expect; size_t st = 0; while (st <= list.size()) { size_t cm = list.find(',', st); if (cm == std::string::npos) cm = list.size(); if (cm > st && !load_expect(list.substr(st, cm - st).c_str())) return; st = cm + 1; }
-  // CRC-16/32 (3 seeds + every chained 2-way split), checksum-8/16: all strings of length 0..1, length 2 over A20, lengths 3..48 x 6 patterns
+  // CRC-16/32 (3 seeds + every chained 2-way split), checksum-8/16: all strings of length 0..1, length 2 over A20, lengths 3..48 x 6 patterns, 49..130 x 2 patterns
   std::vector<uint8_t> full = alphabet("FULL");
   for (size_t len = 0; len <= 1; len++) for_all_strings(full, len, 0, 1, [](const uint8_t *p, size_t n) { crc_one("S:" + (n ? hexs(p, n) : std::string("-")), p, n); });
   for_all_strings(alphabet("A20"), 2, 0, 1, [](const uint8_t *p, size_t n) { crc_one("S:" + hexs(p, n), p, n); });
-  for (size_t L = 3; L <= 48 && !g_capped; L++) for (int p = 0; p < kPatterns; p++) { std::vector<uint8_t> v = pattern(p, L); crc_one("P:" + std::to_string(p) + ":" + std::to_string(L), v.data(), L); }
+  for (size_t L = 3; L <= 130 && !g_capped; L++) for (int p = (L <= 48 ? 0 : 2); p < kPatterns; p += (L <= 48 ? 1 : 3)) { std::vector<uint8_t> v = pattern(p, L); crc_one("P:" + std::to_string(p) + ":" + std::to_string(L), v.data(), L); }
   // MD5: lengths 0..70 (130 thorough) x 2 patterns x {single, every 2-way split, 3-way grid, byte-at-a-time, two instances}: every part and the digest at the offsets
   for (size_t L = 0; L <= (thorough() ? 130u : 70u) && !out_of_time(); L++) md5_len(L, 0);
   // AES: the published known answers and the 128 diagonal single-bit key/block pairs: key, input, output (and the in-place buffer) at the offsets
